@@ -2515,6 +2515,35 @@ func _return(n *node) {
 		}
 	}
 
+	// An operand which is another result variable of the function (as in "return b, a")
+	// must be read before any result is stored.
+	alias := make([]bool, len(child))
+	hasAlias := false
+	for i, c := range child {
+		if c.kind == identExpr && c.level == 0 && c.findex >= 0 && c.findex < len(child) && c.findex != i {
+			alias[i], hasAlias = true, true
+		}
+	}
+	if hasAlias {
+		n.exec = func(f *frame) bltn {
+			tmp := make([]reflect.Value, len(values))
+			for i, value := range values {
+				v := value(f)
+				if alias[i] {
+					c := reflect.New(v.Type()).Elem()
+					c.Set(v)
+					v = c
+				}
+				tmp[i] = v
+			}
+			for i, v := range tmp {
+				f.data[i].Set(v)
+			}
+			return nil
+		}
+		return
+	}
+
 	switch len(child) {
 	case 0:
 		n.exec = nil
